@@ -49,9 +49,10 @@ theorem range_upper_defined (d : Str) :
     exact ⟨p, hp⟩
   · rintro ⟨p, rfl⟩; simp [dirRangeUpper_snoc]
 
-/-- The `substr` test of `_find_owning_static_tree` is a prefix test on the slash-extended path. -/
+/-- The `substr` test of `_find_owning_static_tree` is a prefix test on the path as given (tree
+labels end in `/`, so an owned file path is a proper extension of the tree label). -/
 theorem substr_owner (trees : List Str) (path t : Str) :
-    t ∈ owningTrees trees path ↔ t ∈ trees ∧ t <+: addSlash path := by
+    t ∈ owningTrees trees path ↔ t ∈ trees ∧ t <+: path := by
   simp [owningTrees, substrEq_iff]
 
 /-! ## Call sites (the flag is the regenerated one) -/
@@ -98,7 +99,7 @@ theorem site_clean_matching (arg : Str) (labels : List Str) (l : Str) :
   rw [like_is_case_sensitive_read_only]; simp [cleanMatching, like_prefix_exact]
 
 theorem site_inside_tree (trees : List Str) (path : Str) :
-    insideTree trees path = true ↔ ∃ t ∈ trees, t <+: ensureSlash path := by
+    insideTree trees path = true ↔ ∃ t ∈ trees, t <+: path := by
   simp [insideTree, List.isPrefixOf_iff_prefix]
 
 theorem site_contains_tree (trees : List Str) (path : Str) :
@@ -123,10 +124,8 @@ theorem selected_is_proper (d l : Str) (hl : l.getLast? ≠ some slash) (h : (d 
   | nil => simp at hl
   | cons x xs => constructor <;> simp <;> omega
 
-/-- The directory itself without the slash is not selected (relevant to F12:
-`_find_owning_static_tree` tests the *slash-extended* path, so `d` is owned by a tree `d/`). -/
-theorem substr_owner_extended_negation :
-    owningTrees [[100, 47]] [100] = [[100, 47]] ∧ ¬ ([100, 47] <+: [100]) := by decide
+/-- F12 (fixed): the file path `d` is not owned by the tree `d/`. -/
+theorem substr_owner_file_not_under_own_name : owningTrees [[100, 47]] [100] = [] := by decide
 
 /-! Non-vacuity: a concrete selection with every kind of troublesome neighbour. -/
 example :
